@@ -59,6 +59,16 @@ type Op struct {
 	// directory, "dangling": a symbolic link to nowhere).
 	Allow bool   `json:"allow,omitempty"`
 	How   string `json:"how,omitempty"`
+	// Hold (rule-changing admin operations — set_rules, list_toggle, filtering
+	// — in scenarios with DelayedLoop only): the filtering module's updates
+	// loop does not get to run after this operation; it runs when the next
+	// rule-changing operation that is not held has been issued, or before the
+	// next query / clock movement / concurrent phase, so the requests of several
+	// admin calls reach the module back to back.
+	// list_toggle: Allow says which of the two lists is switched On or off
+	// (set_url); filtering: the global filtering flag is set to On
+	// (filtering/config).
+	Hold bool `json:"hold,omitempty"`
 	// par (scenarios with DelayedLoop only): Sub[0] is a set_rules call,
 	// Sub[1:] are queries; they and the body of the filtering module's updates
 	// loop run as concurrent tasks under the cooperative scheduler seeded with
@@ -85,7 +95,7 @@ type Scenario struct {
 	// the harness (after each rule change, or as a task of a concurrent phase)
 	// instead of by its own goroutine.
 	DelayedLoop bool `json:"delayed_loop,omitempty"`
-	Ops          []Op            `json:"ops"`
+	Ops         []Op `json:"ops"`
 }
 
 var (
@@ -206,7 +216,7 @@ func Gen(t *rapid.T, tier string) any {
 		maxOps = 60
 	}
 	pauseRuns := false
-	faulty := false
+	faulty, faultAllow := false, false
 	genQuery := func() Op {
 		return Op{Kind: "query", Name: rapid.SampledFrom(qnames).Draw(t, "qname"), Qtype: rapid.SampledFrom(qts).Draw(t, "qtype"),
 			Addr: rapid.SampledFrom(addrs).Draw(t, "addr"), Proto: rapid.SampledFrom(protos).Draw(t, "proto")}
@@ -220,8 +230,21 @@ func Gen(t *rapid.T, tier string) any {
 			k = 99 // a running pause: move the clock to its deadline soon
 		}
 		switch {
-		case k < 58 || (k < 66 && !sc.DelayedLoop):
+		case k < 50 || (k >= 58 && k < 66 && !sc.DelayedLoop):
 			op = genQuery()
+		case k < 54:
+			// A burst: several rule-changing admin calls back to back, the
+			// updates loop not running in between (held operations).
+			for j, m := 0, rapid.IntRange(2, 4).Draw(t, "burst_len"); j < m; j++ {
+				b := genRuleOp(t)
+				b.Hold = true
+				sc.Ops = append(sc.Ops, b)
+			}
+			continue
+		case k < 56:
+			op = Op{Kind: "list_toggle", Allow: rapid.Bool().Draw(t, "tg_allow"), On: rapid.Bool().Draw(t, "tg_on")}
+		case k < 58:
+			op = Op{Kind: "filtering", On: rapid.IntRange(0, 2).Draw(t, "flt_on") != 0}
 		case k < 66:
 			// A custom-rules change, the updates loop and queries, concurrently.
 			op = Op{Kind: "par", Seed: rapid.Uint64().Draw(t, "par_seed"), Pct: rapid.SampledFrom([]int{10, 20, 50, 80}).Draw(t, "par_pct")}
@@ -241,8 +264,15 @@ func Gen(t *rapid.T, tier string) any {
 				faulty = false
 				break
 			}
+			if faulty {
+				// The list whose file is faulty is switched off and on again: the
+				// second call has to fetch the list and replace the file.
+				sc.Ops = append(sc.Ops, Op{Kind: "list_toggle", Allow: faultAllow, Hold: rapid.IntRange(0, 4).Draw(t, "hold") == 0})
+				op = Op{Kind: "list_toggle", Allow: faultAllow, On: true}
+				break
+			}
 			op = Op{Kind: "list_fault", Allow: rapid.Bool().Draw(t, "lf_allow"), How: rapid.SampledFrom([]string{"loop", "loop", "dir", "dangling"}).Draw(t, "lf_how")}
-			faulty = true
+			faulty, faultAllow = true, op.Allow
 		case k < 77:
 			op = Op{Kind: "set_rules", Rules: genRules(t, false, 5)}
 		case k < 83:
@@ -270,9 +300,35 @@ func Gen(t *rapid.T, tier string) any {
 				pauseRuns = false
 			}
 		}
+		if ruleChanging(op.Kind) {
+			op.Hold = rapid.IntRange(0, 4).Draw(t, "hold") == 0
+		}
 		sc.Ops = append(sc.Ops, op)
 	}
 	return sc
+}
+
+// genRuleOp draws one rule-changing admin operation (any endpoint of the
+// family this scenario's configuration gives a meaning to).
+func genRuleOp(t *rapid.T) Op {
+	switch rapid.IntRange(0, 5).Draw(t, "rule_op") {
+	case 0:
+		return Op{Kind: "list_toggle", Allow: rapid.Bool().Draw(t, "tg_allow"), On: rapid.Bool().Draw(t, "tg_on")}
+	case 1:
+		return Op{Kind: "filtering", On: rapid.IntRange(0, 2).Draw(t, "flt_on") != 0}
+	default:
+		return Op{Kind: "set_rules", Rules: genRules(t, false, 5)}
+	}
+}
+
+// ruleChanging says whether an operation of this kind makes the filtering
+// module rebuild its matching engines.
+func ruleChanging(kind string) bool {
+	switch kind {
+	case "set_rules", "list_toggle", "filtering":
+		return true
+	}
+	return false
 }
 
 func buildRR(owner string, qtype uint16, r RR) dns.RR {
@@ -331,6 +387,16 @@ type runner struct {
 	crossed bool
 	aaaaOff bool
 	user    []string
+	// filt is the global filtering flag; blockOn / allowOn say whether the
+	// block list and the allow list are enabled.
+	filt, blockOn, allowOn bool
+	// held is the number of rule-changing admin calls issued since the updates
+	// loop last ran (DelayedLoop scenarios).
+	held int
+	// afterBurst: the configuration in force was accepted by the last call of a
+	// burst the updates loop saw at once.
+	afterBurst bool
+	ls         *env.ListServer
 	// cands are the rule configurations one of which is in force: exactly one
 	// except while a storage fault on a list file, or an overlapping rule
 	// change, leaves it open which (see c02_wide.go).
@@ -397,6 +463,29 @@ func (r *runner) api(method, path string, body any) error {
 		return fmt.Errorf("harness: %s %s %s -> %d %s", method, path, b, code, resp)
 	}
 	return nil
+}
+
+// apiMay is api for an operation that touches the file of a list: while a
+// storage fault is in doubt the answer of the API says whether the operation
+// was accepted (applied=false: refused, nothing changed).
+func (r *runner) apiMay(method, path string, body any) (applied bool, err error) {
+	b, _ := json.Marshal(body)
+	code, resp, err := r.n.Mux.Do(method, path, b)
+	if err != nil {
+		if hp, ok := err.(*env.HandlerPanic); ok {
+			return false, kernel.Violationf("api-panic", "%v", hp)
+		}
+		return false, err
+	}
+	if code != http.StatusOK {
+		if r.window {
+			r.c.Probe("api_refused_under_fault")
+			r.c.Eventf("api %s refused: %d", path, code)
+			return false, nil
+		}
+		return false, fmt.Errorf("harness: %s %s %s -> %d %s", method, path, b, code, resp)
+	}
+	return true, nil
 }
 
 // offending returns the first record of the answer that the reference model
@@ -474,7 +563,7 @@ func (r *runner) judge(op Op, rep *dnsnode.Reply, prot, protEnd, first bool, log
 	if wantRcode != dns.RcodeSuccess {
 		r.c.Probe("negative_upstream_answer")
 	}
-	clientName, clientFilt := "", r.sc.Filtering
+	clientName, clientFilt := "", r.filt
 	if r.sc.ClientOff && op.Addr == "192.0.2.2" {
 		clientName, clientFilt = "nofilter", false
 	}
@@ -567,6 +656,9 @@ func (r *runner) judge(op Op, rep *dnsnode.Reply, prot, protEnd, first bool, log
 	}
 	if idx >= 0 {
 		r.c.Probe("blocked_by_response")
+		if r.afterBurst {
+			r.c.Probe("blocked_after_burst")
+		}
 		if first {
 			r.c.Probe("blocked_first_after_pause")
 		}
@@ -644,21 +736,100 @@ func brief(m *dns.Msg) string {
 	return fmt.Sprintf("%s/%d", dns.RcodeToString[m.Rcode], len(m.Answer))
 }
 
-func (r *runner) apply(op Op) error {
+// settle lets the updates loop run (DelayedLoop scenarios: its body is run
+// here), waits for quiescence and brings the reference model to the last
+// accepted configuration: this is the rule set every later query is judged by.
+func (r *runner) settle() error {
+	r.afterBurst = false
+	if r.sc.DelayedLoop {
+		n := r.n.Filter.VerifDrainInitializer()
+		if r.held > 1 {
+			r.afterBurst = true
+			r.c.Fault("updates_loop_delayed")
+			r.c.Probe("burst_settled")
+			r.c.Eventf("updates loop runs after %d admin calls: %d request(s) handled", r.held, n)
+		}
+	}
+	r.held = 0
+	kernel.Wait()
+	r.c.Fault("live_rule_change")
+	return r.install()
+}
+
+// listURL is the address the harness gave the block or the allow list.
+func listURL(allow bool) string {
+	if allow {
+		return "https://lists.invalid/a.txt"
+	}
+	return "https://lists.invalid/b.txt"
+}
+
+func listText(rules []string) string { return strings.Join(rules, "\n") + "\n" }
+
+// admin performs one rule-changing administrative operation and brings the
+// reference model's configuration up to date.  It does not wait.
+func (r *runner) admin(op Op) error {
 	switch op.Kind {
-	case "query":
-		return r.query(op)
 	case "set_rules":
 		if err := r.api("POST", "/control/filtering/set_rules", map[string]any{"rules": op.Rules}); err != nil {
 			return err
 		}
 		r.user = op.Rules
-		if r.sc.DelayedLoop {
-			r.n.Filter.VerifDrainInitializer()
+	case "list_toggle":
+		u := listURL(op.Allow)
+		name := "b"
+		if op.Allow {
+			name = "a"
 		}
-		kernel.Wait()
-		r.c.Fault("live_rule_change")
-		return r.install()
+		applied, err := r.apiMay("POST", "/control/filtering/set_url", map[string]any{"url": u, "whitelist": op.Allow, "data": map[string]any{"enabled": op.On, "name": name, "url": u}})
+		if err != nil {
+			return err
+		}
+		if applied {
+			if op.Allow {
+				r.allowOn = op.On
+			} else {
+				r.blockOn = op.On
+			}
+			r.c.Probe("list_toggled")
+		}
+	case "filtering":
+		if err := r.api("POST", "/control/filtering/config", map[string]any{"enabled": op.On, "interval": 24}); err != nil {
+			return err
+		}
+		r.filt = op.On
+	default:
+		return fmt.Errorf("harness: unknown rule operation %q", op.Kind)
+	}
+	return nil
+}
+
+func (r *runner) apply(op Op) error {
+	if r.held > 0 {
+		switch op.Kind {
+		case "query", "advance", "to_deadline", "par":
+			// The loop gets to run at the latest now: queries are judged against
+			// the last accepted configuration.
+			if err := r.settle(); err != nil {
+				return err
+			}
+		}
+	}
+	switch op.Kind {
+	case "query":
+		return r.query(op)
+	case "set_rules", "list_toggle", "filtering":
+		if err := r.admin(op); err != nil {
+			return err
+		}
+		r.held++
+		if r.sc.DelayedLoop && op.Hold {
+			// The admin call has returned; the updates loop has not run yet.
+			kernel.Wait()
+			r.c.Probe("held_rule_change")
+			return nil
+		}
+		return r.settle()
 	case "list_fault":
 		return r.injectFault(op)
 	case "list_heal":
@@ -726,14 +897,19 @@ func Run(t *testing.T, scAny any, c *kernel.Ctx) error {
 	defer os.RemoveAll(dir)
 	return kernel.Bubble(t, func() error {
 		r := &runner{sc: sc, c: c, prot: sc.Protection, aaaaOff: sc.AAAADisabled, user: sc.User, dir: dir,
+			filt: sc.Filtering, blockOn: true, allowOn: true, ls: env.NewListServer(),
 			bc: model.BlockConf{Mode: sc.Mode, V4: v4Block, V6: v6Block, TTL: sc.TTL}}
 		up := &env.Upstream{Addr: "sim-upstream:53", Answer: r.answer, Latency: 3 * time.Millisecond}
 		r.up = up
-		cfg := &dnsnode.Config{Dir: dir, ListServer: env.NewListServer(), Upstream: up, UpTimeout: 2 * time.Second, NoUpdatesLoop: sc.DelayedLoop}
+		cfg := &dnsnode.Config{Dir: dir, ListServer: r.ls, Upstream: up, UpTimeout: 2 * time.Second, NoUpdatesLoop: sc.DelayedLoop}
 		cfg.Filtering = filtering.Config{BlockingMode: filtering.BlockingMode(sc.Mode), BlockingIPv4: v4Block, BlockingIPv6: v6Block, BlockedResponseTTL: sc.TTL,
 			ProtectionEnabled: sc.Protection, FilteringEnabled: sc.Filtering, UserRules: sc.User, FiltersUpdateIntervalHours: 24}
-		cfg.BlockLists = []dnsnode.ListSpec{{ID: 10, URL: "https://lists.invalid/b.txt", Name: "b", Text: strings.Join(sc.Block, "\n") + "\n", Enabled: true}}
-		cfg.AllowLists = []dnsnode.ListSpec{{ID: 20, URL: "https://lists.invalid/a.txt", Name: "a", Text: strings.Join(sc.Allow, "\n") + "\n", Enabled: true}}
+		cfg.BlockLists = []dnsnode.ListSpec{{ID: 10, URL: listURL(false), Name: "b", Text: listText(sc.Block), Enabled: true}}
+		cfg.AllowLists = []dnsnode.ListSpec{{ID: 20, URL: listURL(true), Name: "a", Text: listText(sc.Allow), Enabled: true}}
+		// The server the lists came from still serves what the data directory
+		// holds (a list that is switched on again is downloaded again).
+		r.ls.Set(listURL(false), listText(sc.Block))
+		r.ls.Set(listURL(true), listText(sc.Allow))
 		if sc.ClientOff {
 			cfg.InitialClients = []*client.Persistent{{Name: "nofilter", IPs: []netip.Addr{netip.MustParseAddr("192.0.2.2")}, UID: client.MustNewUID(), UseOwnSettings: true, FilteringEnabled: false}}
 		}
@@ -772,7 +948,7 @@ func Run(t *testing.T, scAny any, c *kernel.Ctx) error {
 var Prop = &kernel.Property{
 	ID:    "C02",
 	Level: "exploration",
-	Rule: "seeded cases (rapid): a zone of upstream answer sections (CNAME chains 0-3, 0-3 A/AAAA, HTTPS records with ipv4hint/ipv6hint, unrelated TXT/MX/NS, randomly permuted) served by the simulated upstream; rules over CNAME targets, IP literals and query names in custom rules, a block list and an allow list (||, |, @@, $important, $dnstype, $client, hosts-style); queries of 4 types over 6 transports from 3 sources interleaved with live set_rules / protection on, off and timed pause / blocking-mode / AAAA-disabled changes and clock movements (fixed steps; to just before, exactly at and past the deadline of the running pause); storage faults on the file of the block list or of the allow list in the data directory (replaced by a symlink loop, a directory or a dangling link, healed later) between rule changes, answers then being judged by what every configuration that may be in force agrees on; in half of the cases the filtering module's updates loop is scheduled by the harness, with phases in which a set_rules call, the updates loop and 2-5 queries run as concurrent tasks interleaved at lock boundaries by a seeded cooperative scheduler, each answer judged by what the configurations before and after the call agree on; " +
+	Rule: "seeded cases (rapid): a zone of upstream answer sections (CNAME chains 0-3, 0-3 A/AAAA, HTTPS records with ipv4hint/ipv6hint, unrelated TXT/MX/NS, randomly permuted) served by the simulated upstream; rules over CNAME targets, IP literals and query names in custom rules, a block list and an allow list (||, |, @@, $important, $dnstype, $client, hosts-style); queries of 4 types over 6 transports from 3 sources interleaved with live set_rules / protection on, off and timed pause / blocking-mode / AAAA-disabled changes and clock movements (fixed steps; to just before, exactly at and past the deadline of the running pause); storage faults on the file of the block list or of the allow list in the data directory (replaced by a symlink loop, a directory or a dangling link, healed later) between rule changes, answers then being judged by what every configuration that may be in force agrees on; in half of the cases the filtering module's updates loop is scheduled by the harness, with phases in which a set_rules call, the updates loop and 2-5 queries run as concurrent tasks interleaved at lock boundaries by a seeded cooperative scheduler, each answer judged by what the configurations before and after the call agree on, and every rule-changing admin call (set_rules, set_url switching the block list or the allow list on or off, filtering/config switching the global filtering flag) may be held, alone or in bursts of 2-4: the updates loop then runs only after the following calls have been issued, before the next query, which is judged by the configuration accepted last; " +
 		"non-trivial = the reference model found at least one answer that must be replaced AND one that must be delivered unchanged; distinct = distinct scenario digests",
 	Gen: Gen,
 	New: func() any { return &Scenario{} },
@@ -783,6 +959,6 @@ var Prop = &kernel.Property{
 	Real:        []string{"internal/dnsforward (pipeline, filterDNSResponse, HTTPS hint filtering, blocking-mode responses)", "internal/filtering (CheckHostRules, engines)", "dnsproxy request path incl. cache", "internal/client.Storage", "urlfilter"},
 	Stub:        []string{"upstream resolver (answer sections from the scenario's zone)", "client sockets", "query log / statistics (recorders)", "wall clock (synctest)"},
 	Assumptions: []string{"urlfilter's matching of one rule set against one host name / IP literal is trusted", "CNAME targets are matched as type CNAME, addresses as A/AAAA, hints as HTTPS for $dnstype purposes (documented behaviour of response filtering)", "while the file of a list cannot be read, and during an overlapping rule change, the statement does not say which of the configurations accepted so far is in force: only what all of them (with and without the unreadable list) agree on is asserted"},
-	FaultKinds:  []string{"live_rule_change", "live_flag_change", "protection_pause", "clock_advance", "list_file_fault", "concurrent_rule_change"},
-	ProbeNames:  []string{"blocked_by_response", "delivered_unchanged", "offender_CNAME", "offender_A", "offender_AAAA", "offender_HTTPS", "offender_not_first", "record_allowlisted", "protection_off_query", "filtering_off_query", "qname_allowlisted_query", "blocked_at_request_stage", "aaaa_disabled_query", "ipv6_hints_stripped", "negative_upstream_answer", "pause_deadline_crossed", "first_query_after_pause", "blocked_first_after_pause", "query_during_pause", "query_straddles_deadline", "op_skipped_no_pause", "fault_healed", "query_in_doubt_agree", "query_in_doubt_disagree", "doubt_all_agree_blocked", "doubt_window_closed", "par_query", "sched_steps", "sched_switches", "op_skipped_fault_active"},
+	FaultKinds:  []string{"live_rule_change", "live_flag_change", "protection_pause", "clock_advance", "list_file_fault", "concurrent_rule_change", "updates_loop_delayed"},
+	ProbeNames:  []string{"blocked_by_response", "delivered_unchanged", "offender_CNAME", "offender_A", "offender_AAAA", "offender_HTTPS", "offender_not_first", "record_allowlisted", "protection_off_query", "filtering_off_query", "qname_allowlisted_query", "blocked_at_request_stage", "aaaa_disabled_query", "ipv6_hints_stripped", "negative_upstream_answer", "pause_deadline_crossed", "first_query_after_pause", "blocked_first_after_pause", "query_during_pause", "query_straddles_deadline", "op_skipped_no_pause", "fault_healed", "query_in_doubt_agree", "query_in_doubt_disagree", "doubt_all_agree_blocked", "doubt_window_closed", "par_query", "sched_steps", "sched_switches", "held_rule_change", "burst_settled", "list_toggled", "api_refused_under_fault", "blocked_after_burst"},
 }
